@@ -28,7 +28,7 @@ Chk_Established ==
     \A a \in DOMAIN Runs(i) :
         LET r == Runs(i)[a] IN
         /\ r.cfg.pre = "none" => r.pre_count = 0
-        /\ r.cfg.pre \in {"stale", "unrelated"} => r.pre_count > 0
+        /\ r.cfg.pre \in {"stale", "unrelated", "crlf"} => r.pre_count > 0
         /\ r.cfg.cache = "cold" => r.cache_before = 0
         \* warm: the harness left the cache as the previous run left it (a run that fails before the model is loaded
         \* leaves nothing, so "warm" cannot demand a non-empty cache)
